@@ -11,6 +11,7 @@
   lemma sdp_two_clients_*                                          per-client channel / continuation state (expected to fail)
 """
 from bumble import sdp
+from pyvc.ext_c19 import opaque_record
 from pyvc.contracts import (Any, Bool, Bytes, Callback, Const, Inst, Int, IntRange, ListOf, OneOf, Opaque, Opt, TupleOf, contract,
                             forall, iff, implies, lemma, model, at, ite)
 
@@ -586,7 +587,8 @@ def parsed_element(ghost):
     return ghost.element
 
 
-model('bumble.sdp:DataElement#parsed', fields=dict(type=Int, value=Opaque('elements')))
+DE = opaque_record('de', type=Int, value=Opaque('elements'))
+model('bumble.sdp:DataElement#parsed', fields=dict(type=Int, value=ListOf(DE)))
 T_DE_FROM = 'bumble.sdp:DataElement.from_bytes'
 contract(
     T_DE_FROM,
@@ -657,4 +659,129 @@ contract(
     inline=['Client.make_transaction_id', 'SDP_PDU.__init__', 'DataElement.sequence', 'DataElement.__post_init__', 'BaseError.__init__'],
     note='ghost driver: Client.send_request is served by the contract of Server.on_sdp_service_attribute_request (same channel MTU '
     'on the server side, symbolic); attribute_ids is the empty list here (the id list is not tracked through the round trip)',
+)
+
+
+def serve_search_attribute(ghost, request):
+    ghost.requests = ghost.requests + 1
+    ghost.server.on_sdp_service_search_attribute_request(request)
+    if ghost.r_kind == K_ERROR:
+        raise ProtocolError(error_code=ghost.r_err)
+    return sdp.SDP_ServiceSearchAttributeResponse(transaction_id=ghost.r_tid, attribute_lists=ghost.r_payload, continuation_state=ghost.r_cont)
+
+
+model(
+    'bumble.sdp:Client#sa',
+    fields=dict(pending_request=Const(None), channel=Opaque('l2cap'), next_transaction_id=IntRange(0, 0xFFFF)),
+    methods={'send_request': Callback('send_request', effect=serve_search_attribute, is_async=True, raises=(ProtocolError,))},
+)
+T_SEARCH_ATTRS = 'bumble.sdp:Client.search_attributes'
+contract(
+    T_SEARCH_ATTRS,
+    prop='C19',
+    params=dict(self=Inst('bumble.sdp:Client#sa'), uuids=Const(()), attribute_ids=Const(())),
+    ghost=dict(SA_GHOST, server=SERVER_B, requests=Int, parsed=Bytes),
+    requires=lambda self, ghost: [ghost.server.channel is not None, ghost.requests == 0],
+    ensures=lambda ghost: client_bytes_post(ghost),
+    ensures_names=['parsed-plus-kept-is-full-response', 'complete-unless-continuation-limit', 'request-count'],
+    invariants={0: client_bytes_inv},
+    decreases={0: lambda watchdog: watchdog},
+    modifies=['self.next_transaction_id', 'ghost.server.current_response', 'ghost.full', 'ghost.requests', 'ghost.parsed'] + RESP_MOD,
+    uses=[T_SA + '@peer', T_DE_FROM + '@env', T_LIST_FROM + '@env'],
+    inline=['Client.make_transaction_id', 'SDP_PDU.__init__', 'DataElement.sequence', 'DataElement.__post_init__', 'BaseError.__init__'],
+    note='ghost driver: Client.send_request is served by the contract of Server.on_sdp_service_search_attribute_request; uuids and '
+    'attribute_ids are empty lists here (pattern and id list are not tracked through the round trip); the final list '
+    'comprehension over the parsed sequences is C18 (stubbed)',
+)
+
+
+def serve_search(ghost, request):
+    ghost.requests = ghost.requests + 1
+    ghost.server.on_sdp_service_search_request(request)
+    if ghost.r_kind == K_ERROR:
+        raise ProtocolError(error_code=ghost.r_err)
+    return sdp.SDP_ServiceSearchResponse(
+        transaction_id=ghost.r_tid, total_service_record_count=ghost.r_total, service_record_handle_list=ghost.r_handles, continuation_state=ghost.r_cont
+    )
+
+
+model(
+    'bumble.sdp:Client#s',
+    fields=dict(pending_request=Const(None), channel=Opaque('l2cap'), next_transaction_id=IntRange(0, 0xFFFF)),
+    methods={'send_request': Callback('send_request', effect=serve_search, is_async=True, raises=(ProtocolError,))},
+)
+T_SEARCH_SERVICES = 'bumble.sdp:Client.search_services'
+
+
+def client_handles_inv(service_record_handle_list, continuation_state, watchdog, ghost):
+    first = watchdog == WATCHDOG
+    return [
+        0 <= watchdog and watchdog <= WATCHDOG,
+        ghost.requests == WATCHDOG - watchdog,
+        ghost.server.channel is not None,
+        implies(first, len(service_record_handle_list) == 0 and continuation_state == NO_CONT),
+        implies(not first, continuation_state == CONT and ghost.server.current_response is not None
+                and list(service_record_handle_list) + pending_handles(ghost.server) == list(ghost.matched_handles)[:0xFFFF]),
+    ]
+
+
+contract(
+    T_SEARCH_SERVICES,
+    prop='C19',
+    params=dict(self=Inst('bumble.sdp:Client#s'), uuids=Const(())),
+    ghost=dict(SEARCH_GHOST, server=SERVER_S, requests=Int),
+    requires=lambda self, ghost: [ghost.server.channel is not None, ghost.requests == 0],
+    ensures=lambda res, ghost: [
+        # returned handles ++ handles the server still holds == the matching handles (the client asks for up to 0xFFFF)
+        list(res) + pending_handles(ghost.server) == list(ghost.matched_handles)[:0xFFFF],
+        len(pending_handles(ghost.server)) == 0 or ghost.requests == WATCHDOG,
+        1 <= ghost.requests and ghost.requests <= WATCHDOG,
+    ],
+    ensures_names=['returned-plus-kept-is-matching-handles', 'complete-unless-continuation-limit', 'request-count'],
+    invariants={0: client_handles_inv},
+    decreases={0: lambda watchdog: watchdog},
+    loop_locals={0: {'service_record_handle_list': ListOf(Int)}},
+    modifies=['self.next_transaction_id', 'ghost.server.current_response', 'ghost.requests'] + RESP_MOD,
+    uses=[T_SEARCH + '@peer'],
+    inline=['Client.make_transaction_id', 'SDP_PDU.__init__', 'DataElement.sequence', 'DataElement.__post_init__', 'BaseError.__init__'],
+    note='ghost driver: Client.send_request is served by the contract of Server.on_sdp_service_search_request',
+)
+
+
+# ---------------------------------------------------------------------------
+# lemma: one client's continuation state must survive another client's request
+# ---------------------------------------------------------------------------
+def lemma_sdp_two_clients_continuation(server, req1, req2, req1c):
+    """client 1 starts a ServiceAttribute transaction whose answer does not fit one response; client 2 (another
+    peer, another L2CAP channel, same server object) then makes a request of its own; client 1 continues.  What
+    client 1 receives must continue ITS response.  (handlers through their contracts)"""
+    server.on_sdp_service_attribute_request(req1)
+    rest_1 = pending(server)
+    server.on_sdp_service_attribute_request(req2)
+    server.on_sdp_service_attribute_request(req1c)
+    return rest_1
+
+
+lemma(
+    'sdp_two_clients_continuation_state',
+    lemma_sdp_two_clients_continuation,
+    prop='C19',
+    params=dict(server=SERVER_B, req1=ATTR_REQ, req2=ATTR_REQ, req1c=ATTR_REQ),
+    ghost=ATTR_GHOST,
+    requires=lambda server, req1, req2, req1c, ghost: [
+        server.channel is not None,
+        ghost.svc is not None,
+        ghost.handle == req1.service_record_handle and ghost.handle == req2.service_record_handle and ghost.handle == req1c.service_record_handle,
+        not is_continuation(req1.continuation_state),  # client 1: fresh request ...
+        not is_continuation(req2.continuation_state),  # client 2: fresh request
+        req1c.continuation_state == CONT,  # client 1: continuation
+        req2.maximum_attribute_byte_count < req1.maximum_attribute_byte_count,  # (so that the two clients are at different positions)
+    ],
+    ensures_names=['continuation-served-from-own-remainder'],
+    ensures=lambda server, res, ghost: [
+        # if client 1 had something pending, its continuation is served from that remainder
+        implies(len(res) > 0, ghost.r_kind == K_ATTR and ghost.r_payload + pending(server) == res),
+    ],
+    modifies=['server.current_response', 'ghost.full'] + RESP_MOD,
+    uses=[T_ATTR + '@peer'],
 )
